@@ -71,7 +71,15 @@ func Render(stmts []Stmt, visit func(s *Stmt, p Pos)) string {
 			case "exit":
 				line(ind, "exit()")
 			case "use":
-				line(ind, fmt.Sprintf("use(%q)", s.Arg))
+				// N selects a layout variant (same tokens, same position of the name)
+				switch s.N % 3 {
+				case 1:
+					line(ind, fmt.Sprintf("use (%q)", s.Arg))
+				case 2:
+					line(ind, fmt.Sprintf("use( %q ) # use(\"zz.p\")", s.Arg))
+				default:
+					line(ind, fmt.Sprintf("use(%q)", s.Arg))
+				}
 			case "for":
 				line(ind, fmt.Sprintf("for %s; %s; %s {", s.Init, s.Cond, s.Post))
 				rec(s.Body, ind+1)
